@@ -250,6 +250,27 @@ pub fn f5_look(rng: &mut Rng, name: &str) -> Def {
         def.normalize();
         return def;
     }
+    if rng.chance(1, 4) {
+        // the same text with and without a trailing assertion; the anchored one has the higher priority
+        def.family = "F5-shadow".into();
+        let base = match rng.below(4) {
+            0 => rng.pick_str(&["end", "if", "a", "ab", "x1", "é"]).to_string(),
+            1 => rng.pick_str(&["[a-z]+", "a+", "[0-9]+", "(ab)+", "[a-c]x?"]).to_string(),
+            _ => rand_re(rng, &ReCfg::basic(), 2).render(),
+        };
+        let look = rng.pick_str(&["$", "\\z", "(?-u:\\b)", "(?m:$)", "(?-u:\\b{end})", "(?-u:\\B)"]);
+        let p1 = rng.range(1, 5);
+        def.push(Pat::regex(&base, 0).prio(p1));
+        def.push(Pat::regex(&format!("(?:{base}){look}"), 0).prio(p1 + rng.range(1, 9)));
+        if rng.chance(1, 2) {
+            def.push(Pat::regex(rng.pick_str(&[";", "\\n", "[a-z]", "[a-zA-Z_][a-zA-Z0-9_]*", " "]), 0).prio(p1 + 20));
+        }
+        if rng.chance(1, 3) {
+            def.push(Pat::skip(rng.pick_str(&[" ", "\\n", "[ \\n]+"])));
+        }
+        def.normalize();
+        return def;
+    }
     for _ in 0..n {
         let text = match rng.below(6) {
             0 => format!("{}{}", rand_re(rng, &ReCfg::basic(), 2).render(), rand_look(rng).render()),
@@ -272,6 +293,26 @@ pub fn f5_look(rng: &mut Rng, name: &str) -> Def {
 pub fn f6_loops(rng: &mut Rng, name: &str) -> Def {
     let bytes_mode = rng.chance(1, 4);
     let mut def = Def::new(name, "F6", !bytes_mode);
+    if rng.chance(1, 6) {
+        // every pattern starts with the same starred group: the automaton re-enters its start
+        // state in the middle of a token
+        def.family = "F6-rootloop".into();
+        let star = rng.pick_str(&["(ab)*", "a*", "[a-c]*", "(x|yz)*", "(a|b)*", "[0-9]*", "(é)*"]);
+        let tails = ["c", "d", "xy", "[q-t]", "0", "zz?", "[k-m]+"];
+        let n = rng.range(1, 3);
+        let mut used: Vec<&str> = vec![];
+        for _ in 0..n {
+            let t = *rng.pick(&tails);
+            if used.contains(&t) {
+                continue;
+            }
+            used.push(t);
+            def.push(Pat::regex(&format!("{star}{t}"), 0));
+        }
+        assign_priorities(rng, &mut def);
+        def.normalize();
+        return def;
+    }
     let n = rng.range(1, 3);
     for _ in 0..n {
         let text = match rng.below(8) {
@@ -535,6 +576,32 @@ pub fn f8_reject(rng: &mut Rng, name: &str) -> (Def, &'static str) {
             }
             cat = "ambiguity?";
         }
+        9 if rng.chance(1, 2) => {
+            // three or four overlapping patterns, priorities drawn from a small set and declared in
+            // random order (tied leaders need not be adjacent; a lower one may sit between them)
+            let pool = ["[a-z]+", "[a-z0-9]+", "[a-z_]+", "if|else", "[a-f]+", "i[a-z]", "[a-z]{2}", "(if)+", "\\w+", "[^ ]+"];
+            let n = rng.range(3, 4);
+            let mut prios = vec![5usize, 5, 3, 4];
+            prios.truncate(n);
+            if rng.chance(1, 3) {
+                prios[1] = 6;
+            }
+            rng.shuffle(&mut prios);
+            let mut used: Vec<&str> = vec![];
+            for k in 0..n {
+                let mut t = *rng.pick(&pool);
+                while used.contains(&t) {
+                    t = *rng.pick(&pool);
+                }
+                used.push(t);
+                if rng.chance(1, 4) && k == 0 {
+                    def.push(Pat::token("if", 0).prio(prios[k]));
+                } else {
+                    def.push(Pat::regex(t, 0).prio(prios[k]));
+                }
+            }
+            cat = "ambiguity?";
+        }
         9 => {
             // random soup, all with the same explicit priority
             let cfg = ReCfg::basic();
@@ -621,6 +688,15 @@ pub fn f7_curated() -> Vec<Def> {
     // lazy quantifiers denote the same language
     mk(true, vec![Pat::regex("a+?b", 0), Pat::regex("a*?", 0).prio(1), Pat::regex("x{2,3}?", 0)]);
     mk(true, vec![Pat::regex("\"[^\"]*?\"", 0), Pat::regex("[a-z]+?", 0)]);
+    // the graph re-enters its root state in the middle of a token (all patterns share a starred prefix)
+    mk(true, vec![Pat::regex("(ab)*c", 0), Pat::regex("(ab)*d", 0)]);
+    mk(true, vec![Pat::regex("a*b", 0)]);
+    mk(false, vec![Pat::regex("[a-c]*x", 0), Pat::regex("[a-c]*yz", 0)]);
+    // anchored variant of a text next to its unanchored variant
+    mk(true, vec![Pat::token("end", 0), Pat::regex("end$", 0).prio(10), Pat::token(";", 0)]);
+    mk(true, vec![Pat::regex("[a-z]+", 0), Pat::regex("[a-z]+\\z", 0).prio(9), Pat::skip(" ")]);
+    mk(true, vec![Pat::token("if", 0), Pat::regex("if(?-u:\\b)", 0).prio(50), Pat::regex("[a-zA-Z_][a-zA-Z0-9_]*", 0).prio(3)]);
+    mk(false, vec![Pat::regex("ab", 0), Pat::regex("ab(?m:$)", 0).prio(7), Pat::token("\n", 0), Pat::regex("abc", 0)]);
     // no pattern can ever match (empty languages): the root must not keep edges into itself
     mk(true, vec![Pat::regex("[a-c]*(x$y)+", 0)]);
     mk(false, vec![Pat::regex("a+$b", 0), Pat::regex("[a-c]*\\zq", 0).prio(9)]);
